@@ -9,6 +9,7 @@ import (
 	"github.com/bronlabs/bron-crypto/pkg/base/ct"
 	"github.com/bronlabs/bron-crypto/pkg/base/nt/num"
 	"github.com/bronlabs/bron-crypto/pkg/base/nt/numct"
+	"github.com/bronlabs/bron-crypto/pkg/base/serde"
 	"github.com/bronlabs/bron-crypto/pkg/encryption/paillier"
 	"github.com/bronlabs/bron-crypto/pkg/network"
 	"github.com/bronlabs/bron-crypto/pkg/proofs"
@@ -34,6 +35,28 @@ var P = numct.NewNatFromBig(pBig, pBig.BitLen())
 // Proof holds the Paillier N proof data.
 type Proof struct {
 	Sigmas []*numct.Nat
+}
+
+type proofDTO struct {
+	Sigmas []*numct.Nat
+}
+
+// UnmarshalCBOR deserialises a proof and rejects missing sigma values.
+func (p *Proof) UnmarshalCBOR(data []byte) error {
+	dto, err := serde.UnmarshalCBOR[*proofDTO](data)
+	if err != nil {
+		return errs.Wrap(err).WithMessage("cannot unmarshal proof")
+	}
+	if dto == nil {
+		return proofs.ErrInvalidArgument.WithMessage("proof is nil")
+	}
+	for _, sigma := range dto.Sigmas {
+		if sigma == nil {
+			return proofs.ErrInvalidArgument.WithMessage("sigma is nil")
+		}
+	}
+	p.Sigmas = dto.Sigmas
+	return nil
 }
 
 // Prover generates a Paillier N proof.
@@ -115,7 +138,7 @@ func Verify(sessionID network.SID, tape transcripts.Transcript, statement *paill
 		return proofs.ErrVerificationFailed.WithMessage("verification failed")
 	}
 	for _, sigma := range proof.Sigmas {
-		if sigma.IsZero() != ct.False {
+		if sigma == nil || sigma.IsZero() != ct.False {
 			return proofs.ErrVerificationFailed.WithMessage("verification failed")
 		}
 	}
